@@ -39,7 +39,7 @@ ASSUMPTIONS = [
     "the model covers: with_/transform_/reset_ on every attribute kind with whole conforming values, update_/with_ with nested keywords on spec attributes, "
     "update/transform/reset as folds; other forms are checked through relations (2)-(5) only",
 ]
-PROFILE = dict(grammar.PROFILES["data_plain"], flags=False)
+PROFILE = dict(grammar.PROFILES["data_plain"], flags=False, invalidation_cycles=True)
 NOOP_FN = {"to_missing"}
 
 
